@@ -44,7 +44,7 @@ def check_bookkeeping(ctx, db):
         for a in aps:
             n += 1
             wa = g.where_node(a)
-            ok = any(g.postdominates(g.where_node(fl), wa) and fl.id > a.id for fl in fills)
+            ok = any(g.postdominates(g.where_node(fl), wa) and fl.pos > a.pos for fl in fills)
             ctx.check(ok and len(aps) == len(fills), 'R-PAIRCALL', 'RobustPath::%s/append->fill' % f.name, a.loc(), 'the appended section is followed on every path by exactly one fill_widths_and_offsets',
                       'a section is appended without a fill_widths_and_offsets on every following path: width/offset arrays fall out of step with subpath_array')
             if fills:
@@ -149,7 +149,7 @@ def check_fill(ctx, db):
                     const = const or any(is_assign(x) and lvalue_key(_strip_casts(x.child('lhs'))) == ak + '.type' and 'Constant' in x.child('rhs').text() for x in f.walk())
                     if not const:
                         problems.append('the default entry is not of InterpolationType::Constant')
-                    sets = [x for x in body if is_assign(x) and x.op == '=' and x.id < ap.id and lvalue_key(_strip_casts(x.child('lhs'))) in (ak + '.value', ak + '.initial_value')]
+                    sets = [x for x in body if is_assign(x) and x.op == '=' and x.pos < ap.pos and lvalue_key(_strip_casts(x.child('lhs'))) in (ak + '.value', ak + '.initial_value')]
                     good = False
                     for x in sets:
                         r = _strip_casts(x.child('rhs'))
